@@ -47,7 +47,7 @@ class IndependentMultitaskVariationalStrategy(_VariationalStrategy):
         return self.base_variational_strategy.variational_params_initialized
 
     def kl_divergence(self):
-        return super().kl_divergence().sum(dim=-1)
+        return super().kl_divergence().sum(dim=self.task_dim)
 
     def __call__(self, x, task_indices=None, prior=False, **kwargs):
         r"""
@@ -84,7 +84,7 @@ class IndependentMultitaskVariationalStrategy(_VariationalStrategy):
 
             # Create a mask to choose specific task assignment
             task_mask = torch.nn.functional.one_hot(task_indices, num_classes=self.num_tasks)
-            task_mask = task_mask.permute(*range(0, task_dim), *range(task_dim + 1, num_batch + 1), task_dim)
+            task_mask = task_mask.permute(*range(0, task_dim), num_batch, *range(task_dim, num_batch))
 
             mean = (function_dist.mean * task_mask).sum(task_dim)
             covar = (function_dist.lazy_covariance_matrix * RootLinearOperator(task_mask[..., None])).sum(task_dim)
